@@ -425,6 +425,9 @@ type plCase struct {
 	Proto  string   `json:"proto"`
 	Images [][2]int `json:"images"` // pixel sizes
 	Frames []frame  `json:"frames"`
+	// Cell: pixel size of a cell; Pad: pixels of the text area beyond the grid
+	Cell [2]int `json:"cell_pixels,omitempty"`
+	Pad  [2]int `json:"text_area_padding_pixels,omitempty"`
 }
 
 type gfxSeen struct {
@@ -790,6 +793,9 @@ func genPlacements(r gen.R, proto string) plCase {
 
 var geometries = [][2]int{{8, 16}, {10, 20}, {7, 15}, {9, 18}, {6, 13}}
 
+// padW, padH: see startSession; set by the batch
+var padW, padH int
+
 func startSession(cw, ch int, caps refterm.Caps) (*vxh.Session, error) {
 	if !caps.InBand && caps.TextArea {
 		// pixel sizes through CSI 14 t / 18 t are only used with this switch
@@ -797,6 +803,9 @@ func startSession(cw, ch int, caps refterm.Caps) (*vxh.Session, error) {
 	}
 	sess, err := vxh.Start(40, 16, caps, vaxis.Options{}, func(t *refterm.Terminal, c *memcon.Console) {
 		t.CellW, t.CellH = cw, ch
+		// the text area is a few pixels larger than the cell grid (fewer
+		// than one per column/row: the cell size stays cw x ch)
+		t.PadW, t.PadH = padW, padH
 	})
 	if err != nil {
 		return nil, err
@@ -838,6 +847,7 @@ func (c check) Run(w *harness.W, b harness.Batch) {
 		}
 	case "fit-pixel":
 		g := geometries[s.Part%len(geometries)]
+		padW, padH = (s.Part*11)%40, (s.Part*3)%16
 		sess, err := startSession(g[0], g[1], refterm.Caps{Unicode: true, RGB: true, Sync: true, InBand: s.Part%2 == 0, TextArea: true, KittyGfx: true, Sixel: true})
 		if err != nil {
 			w.Inconclusive("start-failed")
@@ -875,6 +885,7 @@ func (c check) Run(w *harness.W, b harness.Batch) {
 		}
 	case "placements":
 		g := geometries[s.Part%len(geometries)]
+		padW, padH = (s.Part*7+3)%40, (s.Part*5+2)%16
 		sess, err := startSession(g[0], g[1], refterm.Caps{Unicode: true, RGB: true, Sync: true, InBand: true, TextArea: true, KittyGfx: true, Sixel: true})
 		if err != nil {
 			w.Inconclusive("start-failed")
@@ -885,7 +896,9 @@ func (c check) Run(w *harness.W, b harness.Batch) {
 			// every history starts from an empty placement list
 			sess.Vx.Window().Clear()
 			sess.Vx.Refresh()
-			if !runPlacements(w, sess, genPlacements(r, []string{"kitty", "sixel"}[i%2]), i < 2) {
+			pc := genPlacements(r, []string{"kitty", "sixel"}[i%2])
+			pc.Cell, pc.Pad = [2]int{g[0], g[1]}, [2]int{padW, padH}
+			if !runPlacements(w, sess, pc, i < 2) {
 				return
 			}
 		}
@@ -907,7 +920,11 @@ func (c check) Replay(w *harness.W, raw json.RawMessage) {
 	case probe["frames"] != nil:
 		var pc plCase
 		json.Unmarshal(raw, &pc)
-		sess, err := startSession(8, 16, caps)
+		if pc.Cell[0] == 0 {
+			pc.Cell = [2]int{8, 16}
+		}
+		padW, padH = pc.Pad[0], pc.Pad[1]
+		sess, err := startSession(pc.Cell[0], pc.Cell[1], caps)
 		if err != nil {
 			fmt.Println(err)
 			return
